@@ -252,6 +252,16 @@ pub fn decorate_generics(d: &mut Dice, gens: &mut Gens, allow_generics: bool) {
     gens.consts_first = d.chance(30);
 }
 
+/// Repaired in /repo (fix: unreachable_code allows): with a field of the never type `!`, `derive(Into)`, `derive(TryInto)` and
+/// `derive(Error)` raised `unreachable_code` warnings. The switches stay as documentation of the classes; both are off.
+const AVOID_NEVER_TYPE_FIELD_IN_INTO_AND_TRY_INTO: bool = false;
+const AVOID_NEVER_TYPE_FIELD_IN_ERROR: bool = false;
+/// Not claimed: `derive(Into)` on a struct whose only converted field is `!` does not compile (E0277 `!: From<()>`): the
+/// expansion writes `<Ty as From<_>>::from(value.0)` and `_` falls back to `()` for a diverging argument. Naming the source
+/// type instead of `_` would break the documented `#[into(ref(str))] struct S(String)` (which relies on deref coercion of the
+/// argument), and `!` is not nameable on stable without a projection trick, so this shape is left out of the domain.
+const AVOID_NEVER_TYPE_AS_ONLY_CONVERTED_FIELD_OF_INTO: bool = true;
+
 pub const FIELD_NAMES: [&str; 6] = ["a", "b", "c", "x", "r#type", "r#fn"];
 
 pub struct Item {
@@ -413,6 +423,104 @@ fn fmt_ref(name: &Option<String>, i: usize) -> String {
     }
 }
 
+/// the "head" of a field type for coherence purposes: two impls `Trait<X> for S<..>` / `From<S<..>> for X` overlap when the
+/// heads are equal (`L<'a>` vs `L<'b>`, `A<N>` vs `A<M>`, `<U as Tr>::A` is `U`); a bare type parameter overlaps with everything
+fn coherence_head(t: &FT) -> String {
+    match t {
+        FT::U | FT::Assoc => "U".into(),
+        FT::T(_) => "*".into(),
+        FT::L(_) => "L".into(),
+        FT::A(_) => "A".into(),
+        FT::RefU(_) => "&U".into(),
+        FT::VecT(_) => "Vec".into(),
+        FT::ArrU(_) => "[U]".into(),
+        FT::OptT(_) => "Option".into(),
+        FT::Tuple(_) => "(U,_)".into(),
+        FT::FnPtr(_) => "fn".into(),
+        FT::Infallible => "Infallible".into(),
+    }
+}
+
+/// Field-level `#[into(..)]` attributes (into.md, "Fields"). Every conversion target (kind x type) is generated at most
+/// once (coherence) and never is a bare type parameter (orphan rule). Returns false (nothing changed) when no
+/// attribute could be placed.
+fn into_field_attrs(d: &mut Dice, types: &[FT], fs: &mut [FieldDef], cont_attrs: &mut Vec<String>) -> bool {
+    let n = types.len();
+    // targets already taken: "<kind>:<head>"
+    let mut used: Vec<String> = vec![];
+    let mut skipped = vec![false; n];
+    let mut placed = false;
+    // some field has conversions of its own (then there is no struct-level conversion unless the struct has an attribute)
+    let mut any_convs = false;
+    for i in 0..n {
+        if !d.chance(55) {
+            continue;
+        }
+        let bare = matches!(types[i], FT::T(_));
+        let head = coherence_head(&types[i]);
+        let is_u = types[i] == FT::U;
+        // (attribute text, targets, skip)
+        let form: (String, Vec<String>, bool) = match d.pick(8) {
+            0 => ("#[into]".into(), vec![format!("owned:{head}")], false),
+            1 => ("#[into(skip)]".into(), vec![], true),
+            2 => ("#[into(ignore)]".into(), vec![], true),
+            3 => ("#[into(ref)]".into(), vec![format!("ref:{head}")], false),
+            4 => ("#[into(owned, ref_mut)]".into(), vec![format!("owned:{head}"), format!("mut:{head}")], false),
+            5 => ("#[into(ref)] #[into(skip)]".into(), vec![format!("ref:{head}")], true),
+            6 if is_u => ("#[into(i64)]".into(), vec!["owned:i64".into()], false),
+            7 if is_u => ("#[into(owned(i64), ref)]".into(), vec!["owned:i64".into(), format!("ref:{head}")], false),
+            _ => ("#[into]".into(), vec![format!("owned:{head}")], false),
+        };
+        if !form.1.is_empty() && (bare || form.1.iter().any(|t| used.contains(t))) {
+            continue;
+        }
+        used.extend(form.1.iter().cloned());
+        any_convs |= !form.1.is_empty();
+        skipped[i] = form.2;
+        fs[i].attrs.push(form.0);
+        placed = true;
+    }
+    if !placed {
+        return false;
+    }
+    // the struct-level conversion goes over the non-skipped fields: a tuple, or the field type itself if one is left
+    let kept: Vec<usize> = (0..n).filter(|i| !skipped[*i]).collect();
+    let cont = ["", "#[into]", "#[into(owned, ref)]", "#[into(ref_mut)]"][d.pick(4)];
+    // kinds of the struct-level conversion: explicit, or the default owned one when no field has conversions of its own
+    let kinds: Vec<&str> = match cont {
+        "#[into]" => vec!["owned"],
+        "#[into(owned, ref)]" => vec!["owned", "ref"],
+        "#[into(ref_mut)]" => vec!["mut"],
+        _ if !any_convs => vec!["owned"],
+        _ => vec![],
+    };
+    let mut ok = true;
+    if kept.len() == 1 {
+        let k = kept[0];
+        let head = coherence_head(&types[k]);
+        if matches!(types[k], FT::T(_)) && !kinds.is_empty() {
+            ok = false;
+        }
+        if kinds.iter().any(|kd| used.contains(&format!("{kd}:{head}"))) {
+            ok = false;
+        }
+    }
+    // a two-field tuple `(U, X)` is also what a marked field of type `(U, T)` converts into
+    if kept.len() == 2 && kinds.iter().any(|kd| used.contains(&format!("{kd}:(U,_)"))) {
+        ok = false;
+    }
+    if !ok {
+        for f in fs.iter_mut() {
+            f.attrs.retain(|a| !a.starts_with("#[into"));
+        }
+        return false;
+    }
+    if !cont.is_empty() {
+        cont_attrs.push(cont.to_string());
+    }
+    true
+}
+
 /// Builds one case. Returns (item, labels).
 fn build_item(d: &mut Dice) -> (Item, Vec<String>, Vec<String>) {
     let classes = [
@@ -515,19 +623,42 @@ fn build_item(d: &mut Dice) -> (Item, Vec<String>, Vec<String>) {
                 }
             }
             item.gens = fg.gens;
-            if n == 0 && d.chance(50) {
-                item.body = ItemBody::Unit;
+            let named = d.chance(50);
+            let mut fs = mk_fields(&fg.fields, named, d);
+            let all_u = n > 0 && fg.fields.iter().all(|f| *f == FT::U);
+            let mut field_mode = false;
+            if cls == "Into" && n > 0 && d.chance(35) {
+                // into.md "Fields": `#[into]`, `#[into(<types>)]`, reference kinds and `#[into(skip)]` on fields, with or
+                // without a struct attribute
+                field_mode = into_field_attrs(d, &fg.fields, &mut fs, &mut item.cont_attrs);
+                if field_mode {
+                    labels.push("attr=into_field_level".into());
+                }
+            }
+            if n == 0 {
+                // the three ways to write a field-less struct
+                item.body = match d.pick(3) {
+                    0 => ItemBody::Unit,
+                    1 => {
+                        labels.push("empty_shape=tuple".into());
+                        ItemBody::Tuple(vec![])
+                    }
+                    _ => {
+                        labels.push("empty_shape=braces".into());
+                        ItemBody::Named(vec![])
+                    }
+                };
             } else {
-                let named = d.chance(50);
-                let fs = mk_fields(&fg.fields, named, d);
                 item.body = if named { ItemBody::Named(fs) } else { ItemBody::Tuple(fs) };
             }
-            let all_u = n > 0 && fg.fields.iter().all(|f| *f == FT::U);
-            if cls == "Into" && all_u && d.chance(35) {
+            if field_mode {
+                // (the struct attribute, if any, was chosen together with the field attributes)
+            } else if cls == "Into" && all_u && d.chance(35) {
                 // into.md: listed types (`i64: From<U>` holds for the universal type); a tuple type for several fields
                 let ty = if n == 1 { "i64".to_string() } else { format!("({})", vec!["i64"; n].join(", ")) };
                 item.cont_attrs.push(
-                    [format!("#[into({ty})]"), format!("#[into(owned({ty}), ref)]"), format!("#[into({ty})]\n#[into(ref_mut)]"), format!("#[into(owned, ref({ty}))]")][d.pick(3)].clone(),
+                    // (no `ref({ty})`: it needs `&i64: From<&U>`, which the universal field types do not implement)
+                    [format!("#[into({ty})]"), format!("#[into(owned({ty}), ref)]"), format!("#[into({ty})]\n#[into(ref_mut)]")][d.pick(3)].clone(),
                 );
                 labels.push("attr=types".into());
             } else if cls == "Into" && d.chance(40) {
@@ -543,23 +674,122 @@ fn build_item(d: &mut Dice) -> (Item, Vec<String>, Vec<String>) {
             let named = d.chance(50);
             item.gens = fg.gens;
             let mut fs = mk_fields(&fg.fields, named, d);
+            let heads: Vec<String> = fg.fields.iter().map(coherence_head).collect();
+            // fields whose own `AsRef<FieldTy>` impls cannot overlap: pairwise different heads, a bare parameter only alone
+            let exposable = |set: &[usize]| -> bool {
+                set.len() <= 1 || (set.iter().all(|i| heads[*i] != "*") && (0..set.len()).all(|a| (a + 1..set.len()).all(|b| heads[set[a]] != heads[set[b]])))
+            };
             if n == 1 {
-                match d.pick(4) {
+                let is_param = matches!(fg.fields[0], FT::T(_));
+                match d.pick(7) {
                     0 => {}
                     1 => {
                         item.cont_attrs.push(format!("#[{attr}(forward)]"));
                         labels.push("attr=forward".into());
                     }
-                    2 if fg.fields[0] != FT::T("T".into()) && !matches!(fg.fields[0], FT::T(_)) => {
+                    2 => {
+                        // as_ref.md: `#[as_ref(i32)] struct Generic<T>(T)` generates `impl<T: AsRef<i32>> AsRef<i32> for Generic<T>`
                         item.cont_attrs.push(format!("#[{attr}(i64)]"));
                         labels.push("attr=types".into());
+                        if is_param {
+                            labels.push("asref=types_on_generic_field".into());
+                        }
                     }
-                    _ => fs[0].attrs.push(format!("#[{attr}]")),
+                    3 => fs[0].attrs.push(format!("#[{attr}]")),
+                    4 => {
+                        // the field's own type among the listed ones ("These types can include both the type of the field itself, ..")
+                        let own = fg.fields[0].render();
+                        if is_param {
+                            // `#[as_ref(T)] struct Transparent<T>(T)`
+                            item.cont_attrs.push(format!("#[{attr}({own})]"));
+                        } else {
+                            item.cont_attrs.push([format!("#[{attr}(i64, {own})]"), format!("#[{attr}({own})]\n#[{attr}(i64)]")][d.pick(2)].clone());
+                        }
+                        labels.push("attr=types".into());
+                        labels.push("asref=types_include_field_type".into());
+                    }
+                    5 => {
+                        fs[0].attrs.push(format!("#[{attr}(forward)]"));
+                        labels.push("attr=forward".into());
+                        labels.push("asref=field_level_forward".into());
+                    }
+                    _ => {
+                        fs[0].attrs.push(format!("#[{attr}(i64)]"));
+                        labels.push("attr=types".into());
+                        labels.push("asref=field_level_types".into());
+                    }
                 }
             } else {
-                let k = d.pick(n);
-                fs[k].attrs.push(format!("#[{attr}]"));
-                labels.push("attr=field_marker".into());
+                match d.pick(5) {
+                    1 => {
+                        // as_ref.md "Skipping": impls for the fields that are *not* marked `skip`/`ignore`
+                        let keep: Vec<usize> = {
+                            let k0 = d.pick(n);
+                            let mut v = vec![k0];
+                            for i in 0..n {
+                                if i != k0 && d.chance(50) {
+                                    let mut w = v.clone();
+                                    w.push(i);
+                                    if exposable(&w) {
+                                        v = w;
+                                    }
+                                }
+                            }
+                            // ("you must also mark one or more fields": at least one field is skipped)
+                            if v.len() == n {
+                                v.pop();
+                            }
+                            v
+                        };
+                        for (i, f) in fs.iter_mut().enumerate() {
+                            if !keep.contains(&i) {
+                                f.attrs.push(format!("#[{attr}({})]", ["skip", "ignore"][d.pick(2)]));
+                            }
+                        }
+                        labels.push("asref=skip_mode".into());
+                    }
+                    2 => {
+                        // several marked fields of different types
+                        let mut marked: Vec<usize> = vec![];
+                        for i in 0..n {
+                            let mut w = marked.clone();
+                            w.push(i);
+                            if exposable(&w) {
+                                marked = w;
+                            }
+                        }
+                        for i in &marked {
+                            fs[*i].attrs.push(format!("#[{attr}]"));
+                        }
+                        if marked.len() > 1 {
+                            labels.push("asref=several_marked_fields".into());
+                        }
+                        labels.push("attr=field_marker".into());
+                    }
+                    3 => {
+                        // "if some field is annotated with `#[as_ref(forward)]`, no other field can be marked"
+                        let k = d.pick(n);
+                        fs[k].attrs.push(format!("#[{attr}(forward)]"));
+                        labels.push("attr=forward".into());
+                        labels.push("asref=field_level_forward".into());
+                    }
+                    4 => {
+                        // `#[as_ref(<types>)]` on a field, next to a plainly marked one (`AsRef<i64>` / `AsRef<FieldTy>`)
+                        let k = d.pick(n);
+                        fs[k].attrs.push(format!("#[{attr}(i64)]"));
+                        let other = (k + 1) % n;
+                        if heads[other] != "*" && d.chance(50) {
+                            fs[other].attrs.push(format!("#[{attr}]"));
+                        }
+                        labels.push("attr=types".into());
+                        labels.push("asref=field_level_types".into());
+                    }
+                    _ => {
+                        let k = d.pick(n);
+                        fs[k].attrs.push(format!("#[{attr}]"));
+                        labels.push("attr=field_marker".into());
+                    }
+                }
             }
             item.body = if named { ItemBody::Named(fs) } else { ItemBody::Tuple(fs) };
         }
@@ -576,6 +806,19 @@ fn build_item(d: &mut Dice) -> (Item, Vec<String>, Vec<String>) {
                     }
                 }
             };
+            // debug.md: `#[debug("...", args...)]` "for the whole struct or enum variant" (then no field may carry a format of
+            // its own), and `#[debug(bound(...))]` on the item
+            let container_lit = |d: &mut Dice, fs: &mut Vec<FieldDef>| -> String {
+                for f in fs.iter_mut() {
+                    f.attrs.retain(|a| !a.starts_with("#[debug(\""));
+                }
+                let parts: Vec<String> = fs.iter().enumerate().map(|(i, f)| format!("{{{}:?}}", fmt_ref(&f.name, i))).collect();
+                if d.chance(50) || fs.is_empty() {
+                    format!("#[debug(\"lit {}\")]", parts.join(" "))
+                } else {
+                    format!("#[debug(\"lit {{:?}}\", {})]", fs[0].name.clone().unwrap_or("_0".to_string()))
+                }
+            };
             if !as_enum {
                 let n = d.range(0, 4);
                 let fg = gen_field_types(d, n, Pool::AnyDebug, allow_generics);
@@ -583,6 +826,11 @@ fn build_item(d: &mut Dice) -> (Item, Vec<String>, Vec<String>) {
                 let named = d.chance(50);
                 let mut fs = mk_fields(&fg.fields, named, d);
                 mk(d, &mut fs);
+                if d.chance(20) {
+                    let a = container_lit(d, &mut fs);
+                    item.cont_attrs.push(a);
+                    labels.push("debug_container_literal".into());
+                }
                 item.body = if n == 0 && d.chance(50) { ItemBody::Unit } else if named { ItemBody::Named(fs) } else { ItemBody::Tuple(fs) };
             } else {
                 let nv = d.range(1, 4);
@@ -596,12 +844,26 @@ fn build_item(d: &mut Dice) -> (Item, Vec<String>, Vec<String>) {
                 for i in 0..nv {
                     let mut v = mk_variant(VNAMES[i], &fg.fields[k..k + counts[i]], shapes[i], d);
                     mk(d, &mut v.fields);
+                    if d.chance(20) {
+                        let a = container_lit(d, &mut v.fields);
+                        v.attrs.push(a);
+                        labels.push("debug_container_literal".into());
+                    }
                     k += counts[i];
                     vs.push(v);
                 }
                 item.kw = "enum";
                 item.name = "E".into();
                 item.body = ItemBody::Enum(vs);
+            }
+            if d.chance(15) {
+                // a user bound that every instantiation meets anyway
+                let p = item.gens.tys.first().map(|t| t.0.clone());
+                item.cont_attrs.push(match p {
+                    Some(p) => format!("#[debug(bound({p}: ::core::marker::Sized, u8: ::core::marker::Copy))]"),
+                    None => "#[debug(bounds(u8: ::core::marker::Copy))]".to_string(),
+                });
+                labels.push("fmt_user_bound".into());
             }
         }
         "DisplayLike" => {
@@ -624,7 +886,13 @@ fn build_item(d: &mut Dice) -> (Item, Vec<String>, Vec<String>) {
                     let named = d.chance(50);
                     let fs = mk_fields(&fg.fields, named, d);
                     if n == 0 {
-                        item.cont_attrs.push(format!("#[{attr}(\"unit\")]"));
+                        if d.chance(30) {
+                            // a field-less struct prints its name, converted by `rename_all`
+                            item.cont_attrs.push(format!("#[{attr}(rename_all = \"snake_case\")]"));
+                            labels.push("fmt_rename_all".into());
+                        } else {
+                            item.cont_attrs.push(format!("#[{attr}(\"unit\")]"));
+                        }
                     } else if n > 1 || d.chance(40) {
                         item.cont_attrs.push(if d.chance(50) { lit_for(&fs) } else { lit_args(&fs) });
                         labels.push("attr=literal".into());
@@ -652,6 +920,27 @@ fn build_item(d: &mut Dice) -> (Item, Vec<String>, Vec<String>) {
                         k += counts[i];
                         vs.push(v);
                     }
+                    // display.md "Shared enum format": a default format, or one wrapping the variant's own output
+                    match d.weighted(&[6, 2, 3]) {
+                        0 => {}
+                        1 => {
+                            item.cont_attrs.push(format!("#[{attr}(\"dflt\")]"));
+                            labels.push("fmt_enum_level_default".into());
+                        }
+                        _ => {
+                            item.cont_attrs.push([format!("#[{attr}(\"<{{_variant}}>\")]"), format!("#[{attr}(\"<{{}}>\", _variant)]"), format!("#[{attr}(\"{{_variant}}\")]")][d.pick(3)].clone());
+                            labels.push("fmt_enum_level_wrapping".into());
+                        }
+                    }
+                    if d.chance(20) {
+                        // display.md "The `rename_all` attribute": on the enum and / or on a variant
+                        item.cont_attrs.push(format!("#[{attr}(rename_all = \"{}\")]", ["snake_case", "SCREAMING-KEBAB-CASE", "camelCase"][d.pick(3)]));
+                        if d.chance(50) {
+                            let j = d.pick(vs.len());
+                            vs[j].attrs.push(format!("#[{attr}(rename_all = \"lowercase\")]"));
+                        }
+                        labels.push("fmt_rename_all".into());
+                    }
                     item.kw = "enum";
                     item.name = "E".into();
                     item.body = ItemBody::Enum(vs);
@@ -669,6 +958,15 @@ fn build_item(d: &mut Dice) -> (Item, Vec<String>, Vec<String>) {
                         item.gens.consts.push(("K".into(), None));
                     }
                 }
+            }
+            if d.chance(15) {
+                // display.md "Custom trait bounds": a user bound that every instantiation meets anyway
+                let p = item.gens.tys.first().map(|t| t.0.clone());
+                item.cont_attrs.push(match p {
+                    Some(p) => format!("#[{attr}(bound({p}: ::core::marker::Sized, u8: ::core::marker::Copy))]"),
+                    None => format!("#[{attr}(bounds(u8: ::core::marker::Copy))]"),
+                });
+                labels.push("fmt_user_bound".into());
             }
         }
         "Deref" | "Index" | "IntoIterator" => {
@@ -745,6 +1043,8 @@ fn build_item(d: &mut Dice) -> (Item, Vec<String>, Vec<String>) {
         "Error" => {
             item.std_derives.push("Debug".into());
             item.dm_derives.extend(["Display".to_string(), "Error".to_string()]);
+            // error.md: the source may be any error, e.g. a boxed trait object (spelled with absolute paths)
+            const BOXED: &str = "::std::boxed::Box<dyn ::std::error::Error + ::core::marker::Send + ::core::marker::Sync + 'static>";
             if d.chance(50) {
                 let n = d.range(0, 3);
                 let named = d.chance(50);
@@ -763,11 +1063,19 @@ fn build_item(d: &mut Dice) -> (Item, Vec<String>, Vec<String>) {
                 if allow_generics && n > 0 && d.chance(25) {
                     // the source may be an associated type of a type parameter (`T::Err`-style): the derive bounds the field type
                     let assoc_param = if item.gens.tys.iter().any(|t| t.0 == "Q") { None } else { Some("Q") };
-                    if let Some(q) = assoc_param {
+                    let k = fs.iter().position(|f| f.name.as_deref() == Some("source") || f.attrs.iter().any(|a| a == "#[error(source)]")).unwrap_or(0);
+                    // (a bare type parameter stays: it may be the only use of that parameter)
+                    if let Some(q) = assoc_param.filter(|_| fs[k].ty != "T" && fs[k].ty != "V") {
                         item.gens.tys.push((q.to_string(), Some("Tr".to_string()), None));
-                        let k = fs.iter().position(|f| f.name.as_deref() == Some("source") || f.attrs.iter().any(|a| a == "#[error(source)]")).unwrap_or(0);
                         fs[k].ty = [format!("{q}::A"), format!("<{q} as Tr>::A")][d.pick(2)].clone();
+                        // (std's `#[derive(Debug)]` on the item bounds the parameter, not the projection)
+                        item.gens.wheres.push(format!("{q}::A: core::fmt::Debug"));
                         labels.push("error_source_is_associated_type".into());
+                    }
+                } else if n > 0 && d.chance(15) {
+                    if let Some(f) = fs.iter_mut().find(|f| f.ty == "U") {
+                        f.ty = BOXED.to_string();
+                        labels.push("error_field_is_boxed_dyn_error".into());
                     }
                 }
                 item.cont_attrs.push("#[display(\"err\")]".into());
@@ -775,7 +1083,8 @@ fn build_item(d: &mut Dice) -> (Item, Vec<String>, Vec<String>) {
             } else {
                 let nv = d.range(0, 3);
                 let shapes: Vec<usize> = (0..nv).map(|_| d.pick(3)).collect();
-                let counts: Vec<usize> = shapes.iter().map(|s| if *s == 0 { 0 } else { 1 }).collect();
+                // variants with one field, or with two (then the source is picked by name / attribute, or there is none)
+                let counts: Vec<usize> = shapes.iter().map(|s| if *s == 0 { 0 } else if d.chance(30) { 2 } else { 1 }).collect();
                 let total: usize = counts.iter().sum();
                 let fg = gen_field_types(d, total, Pool::UniversalNoLt, allow_generics);
                 item.gens = fg.gens;
@@ -785,6 +1094,38 @@ fn build_item(d: &mut Dice) -> (Item, Vec<String>, Vec<String>) {
                     let mut v = mk_variant(VNAMES[i], &fg.fields[k..k + counts[i]], shapes[i], d);
                     if shapes[i] == 2 && d.chance(60) {
                         v.fields[0].name = Some("source".into());
+                    }
+                    // error.md: `#[error(source)]`, `#[error(not(source))]`, `#[error(ignore)]` on the fields of a variant
+                    if counts[i] == 2 {
+                        labels.push("error_variant_with_two_fields".into());
+                        let has_named_source = v.fields[0].name.as_deref() == Some("source");
+                        match d.pick(4) {
+                            0 => {}
+                            1 if !has_named_source => {
+                                let j = d.pick(2);
+                                v.fields[j].attrs.push("#[error(source)]".into());
+                                labels.push("error_variant_field_attr".into());
+                            }
+                            2 => {
+                                // ignoring the non-source field must not disturb the choice of the source
+                                v.fields[1].attrs.push("#[error(ignore)]".into());
+                                labels.push("error_variant_field_attr".into());
+                            }
+                            _ if has_named_source => {
+                                v.fields[0].attrs.push("#[error(not(source))]".into());
+                                labels.push("error_variant_field_attr".into());
+                            }
+                            _ => {}
+                        }
+                    } else if counts[i] == 1 && d.chance(25) {
+                        v.fields[0].attrs.push(["#[error(not(source))]", "#[error(ignore)]", "#[error(source)]"][d.pick(3)].to_string());
+                        labels.push("error_variant_field_attr".into());
+                    }
+                    if counts[i] > 0 && d.chance(10) {
+                        if let Some(f) = v.fields.iter_mut().find(|f| f.ty == "U") {
+                            f.ty = BOXED.to_string();
+                            labels.push("error_field_is_boxed_dyn_error".into());
+                        }
                     }
                     v.attrs.push(format!("#[display(\"v{i}\")]"));
                     k += counts[i];
@@ -820,7 +1161,24 @@ fn build_item(d: &mut Dice) -> (Item, Vec<String>, Vec<String>) {
                     item.cont_attrs.push(if d.chance(50) { format!("#[from({ty})]") } else { format!("#[from({ty})]\n#[from({})]", if n == 1 { "U".to_string() } else { format!("({})", vec!["U"; n].join(", ")) }) });
                     labels.push("attr=types".into());
                 }
-                item.body = if n == 0 { ItemBody::Unit } else if named { ItemBody::Named(fs) } else { ItemBody::Tuple(fs) };
+                item.body = if n == 0 {
+                    // `struct S;`, `struct S();`, `struct S {}` all convert from `()`
+                    match d.pick(3) {
+                        0 => ItemBody::Unit,
+                        1 => {
+                            labels.push("empty_shape=tuple".into());
+                            ItemBody::Tuple(vec![])
+                        }
+                        _ => {
+                            labels.push("empty_shape=braces".into());
+                            ItemBody::Named(vec![])
+                        }
+                    }
+                } else if named {
+                    ItemBody::Named(fs)
+                } else {
+                    ItemBody::Tuple(fs)
+                };
             } else {
                 // distinct arities => no overlapping impls whatever the type arguments are
                 let mut ar = vec![1usize, 2, 3];
@@ -855,10 +1213,39 @@ fn build_item(d: &mut Dice) -> (Item, Vec<String>, Vec<String>) {
                 if d.chance(40) {
                     vs.push(mk_variant("Unit", &[], 0, d));
                 }
-                if d.chance(30) {
-                    let k = d.pick(vs.len());
+                if d.chance(15) {
+                    // from.md: "And even specify additional conversions for them": a variant listing the types it converts from
+                    // (the variants without an attribute then get no impl, so nothing can overlap)
+                    let nf = d.range(1, 2);
+                    let (i, u) = if nf == 1 { ("i64".to_string(), "U".to_string()) } else { ("(i64, i64)".to_string(), "(U, U)".to_string()) };
+                    let shape = 1 + d.pick(2);
+                    let mut v = mk_variant("Uni", &vec![FT::U; nf], shape, d);
+                    v.attrs.push([format!("#[from({i})]"), format!("#[from({i}, {u})]"), format!("#[from({u})]\n    #[from({i})]")][d.pick(3)].clone());
+                    vs.push(v);
+                    labels.push("from_variant_level_types".into());
+                    labels.push("attr=variant".into());
+                } else if d.chance(40) {
+                    // (a variant made of universal fields only can list types: prefer one half of the time)
+                    let all_u_variants: Vec<usize> = (0..vs.len()).filter(|i| !vs[*i].unit && vs[*i].fields.iter().all(|f| f.ty == "U")).collect();
+                    let k = if !all_u_variants.is_empty() && d.chance(50) { all_u_variants[d.pick(all_u_variants.len())] } else { d.pick(vs.len()) };
                     if !vs[k].unit {
-                        vs[k].attrs.push(["#[from(skip)]", "#[from(ignore)]", "#[from(forward)]", "#[from]"][d.pick(4)].to_string());
+                        // from.md: `#[from(<types>)]` on a variant ("And even specify additional conversions for them"):
+                        // for a variant whose fields are all the universal type
+                        let all_u = vs[k].fields.iter().all(|f| f.ty == "U");
+                        let nf = vs[k].fields.len();
+                        let choice = d.pick(if all_u { 6 } else { 4 });
+                        let a = match choice {
+                            0 => "#[from(skip)]".to_string(),
+                            1 => "#[from(ignore)]".to_string(),
+                            2 => "#[from(forward)]".to_string(),
+                            3 => "#[from]".to_string(),
+                            _ => {
+                                labels.push("from_variant_level_types".into());
+                                let (i, u) = if nf == 1 { ("i64".to_string(), "U".to_string()) } else { (format!("({})", vec!["i64"; nf].join(", ")), format!("({})", vec!["U"; nf].join(", "))) };
+                                if choice == 4 { format!("#[from({i})]") } else { format!("#[from({i}, {u})]") }
+                            }
+                        };
+                        vs[k].attrs.push(a);
                         labels.push("attr=variant".into());
                     }
                 }
@@ -877,7 +1264,13 @@ fn build_item(d: &mut Dice) -> (Item, Vec<String>, Vec<String>) {
                 item.body = if named { ItemBody::Named(fs) } else { ItemBody::Tuple(fs) };
             } else {
                 let nv = d.range(1, 4);
-                let vs = (0..nv).map(|i| mk_variant(VNAMES[i], &[], 0, d)).collect();
+                let mut vs: Vec<VariantDef> = (0..nv).map(|i| mk_variant(VNAMES[i], &[], 0, d)).collect();
+                if d.chance(25) {
+                    // from_str.md: with `Foo` and `foo` both present the match falls back to exact comparison
+                    vs.push(mk_variant("Mb", &[], 0, d));
+                    vs.push(mk_variant("MB", &[], 0, d));
+                    labels.push("variants_differing_only_in_case".into());
+                }
                 item.kw = "enum";
                 item.name = "E".into();
                 item.body = ItemBody::Enum(vs);
@@ -925,8 +1318,30 @@ fn build_item(d: &mut Dice) -> (Item, Vec<String>, Vec<String>) {
                 k += counts[i];
                 vs.push(v);
             }
+            if dn == "TryInto" && d.chance(35) {
+                // try_into.md: variants with the same field types share one impl (`UnsignedOne(__0) | UnsignedTwo(__0)`)
+                let k = d.pick(vs.len());
+                let mut twin = VariantDef {
+                    attrs: vec![],
+                    std_attrs: vec![],
+                    name: "Twin".into(),
+                    named: vs[k].named,
+                    unit: vs[k].unit,
+                    fields: vs[k].fields.iter().map(|f| FieldDef { attrs: vec![], std_attrs: vec![], name: f.name.clone(), ty: f.ty.clone() }).collect(),
+                    discriminant: None,
+                };
+                if !twin.fields.is_empty() && d.chance(50) {
+                    // the other field-bearing shape: tuple <-> struct-like
+                    twin.named = !twin.named;
+                    for (i, f) in twin.fields.iter_mut().enumerate() {
+                        f.name = if twin.named { Some(FIELD_NAMES[i % 6].to_string()) } else { None };
+                    }
+                }
+                vs.push(twin);
+                labels.push("tryinto_variants_with_same_types".into());
+            }
+            let attr = super::dm::Derive::by_name(&dn).unwrap().info().attr.unwrap();
             if d.chance(30) {
-                let attr = super::dm::Derive::by_name(&dn).unwrap().info().attr.unwrap();
                 if dn == "IsVariant" {
                     let k = d.pick(vs.len());
                     vs[k].attrs.push(format!("#[{attr}(ignore)]"));
@@ -935,6 +1350,20 @@ fn build_item(d: &mut Dice) -> (Item, Vec<String>, Vec<String>) {
                 }
                 labels.push("attr=accessor".into());
             }
+            if dn != "IsVariant" && d.chance(35) {
+                // attributes on variants: `ignore` (try_into.md, unwrap.md, try_unwrap.md), the bare marker `#[try_into]`
+                // ("With `#[try_into]` or `#[try_into(ignore)]` it's possible to indicate which variants .."), and reference
+                // kinds on a variant ("`#[unwrap(ref)]` attribute on the enum declaration or that variant")
+                let k = d.pick(vs.len());
+                let a = if dn == "TryInto" {
+                    [format!("#[{attr}(ignore)]"), format!("#[{attr}]")][d.pick(2)].clone()
+                } else {
+                    [format!("#[{attr}(ignore)]"), format!("#[{attr}(ref)]"), format!("#[{attr}(ref_mut)]"), format!("#[{attr}(owned, ref)]")][d.pick(4)].clone()
+                };
+                labels.push(if a.contains("ignore") { "accessor_variant_ignore".to_string() } else if a.ends_with(&format!("#[{attr}]")) { "accessor_variant_marker".to_string() } else { "accessor_variant_ref_kinds".to_string() });
+                vs[k].attrs.push(a);
+                labels.push("attr=accessor_on_variant".into());
+            }
             item.kw = "enum";
             item.name = "E".into();
             item.body = ItemBody::Enum(vs);
@@ -942,8 +1371,9 @@ fn build_item(d: &mut Dice) -> (Item, Vec<String>, Vec<String>) {
         "TryFrom" => {
             item.dm_derives.push("TryFrom".into());
             item.cont_attrs.push("#[try_from(repr)]".into());
-            let repr = ["u8", "i8", "u16", "i32", "u64", "isize"][d.pick(6)];
-            item.cont_attrs.push(format!("#[repr({repr})]"));
+            // try_from.md: "By default, a `TryFrom<isize>` is generated"; otherwise the `#[repr(u/i*)]` type
+            let repr = ["u8", "i8", "u16", "i32", "u64", "isize", ""][d.pick(7)];
+            let signed = repr.starts_with('i') || repr.is_empty();
             let nv = d.range(1, 4);
             let mut vs: Vec<VariantDef> = (0..nv).map(|i| mk_variant(VNAMES[i], &[], 0, d)).collect();
             if d.chance(25) {
@@ -952,10 +1382,31 @@ fn build_item(d: &mut Dice) -> (Item, Vec<String>, Vec<String>) {
                 vs.push(mk_variant("MB", &[], 0, d));
                 labels.push("variants_differing_only_in_case".into());
             }
-            if d.chance(40) {
-                let k = d.pick(nv);
-                vs[k].discriminant = Some(["5", "1 << 3", "2 + 40"][d.pick(3)].to_string());
+            // the documentation's example: `FieldSix(usize)` (never constructed), `EmptySeven{}` (constructed)
+            let mut has_non_unit = false;
+            if d.chance(30) {
+                let mk = |name: &str, named: bool, fields: Vec<FieldDef>| VariantDef { attrs: vec![], std_attrs: vec![], name: name.into(), named, unit: false, discriminant: None, fields };
+                let f = |name: Option<&str>| FieldDef { attrs: vec![], std_attrs: vec![], name: name.map(|s| s.to_string()), ty: "usize".into() };
+                match d.pick(4) {
+                    0 => vs.push(mk("Six", false, vec![f(None)])),
+                    1 => vs.push(mk("Seven", true, vec![])),
+                    2 => vs.push(mk("Eight", false, vec![])),
+                    _ => {
+                        vs.insert(0, mk("Nine", true, vec![f(Some("x"))]));
+                        vs.push(mk("Seven", true, vec![]));
+                    }
+                }
+                has_non_unit = true;
+                labels.push("tryfrom_variants_with_fields_or_empty_braces".into());
             }
+            // (explicit discriminants next to non-unit variants need an explicit `#[repr(inttype)]`: E0732)
+            if d.chance(40) && !(has_non_unit && repr.is_empty()) {
+                let k = d.pick(vs.len());
+                // (values far from the implicit ones, so that no two variants share a discriminant)
+                let choices: &[&str] = if signed { &["50", "1 << 5", "2 + 40", "-100"] } else { &["50", "1 << 5", "2 + 40"] };
+                vs[k].discriminant = Some(choices[d.pick(choices.len())].to_string());
+            }
+            let mut generic_carrier = false;
             if allow_generics {
                 match d.pick(4) {
                     0 => {}
@@ -965,16 +1416,33 @@ fn build_item(d: &mut Dice) -> (Item, Vec<String>, Vec<String>) {
                     2 => {
                         item.gens.tys.push(("T".into(), None, None));
                         vs.push(VariantDef { attrs: vec![], std_attrs: vec![], name: "Carrier".into(), named: false, unit: false, fields: vec![FieldDef { attrs: vec![], std_attrs: vec![], name: None, ty: "T".into() }], discriminant: None });
+                        generic_carrier = true;
                     }
                     _ => {
                         item.gens.lts.push("'a".into());
                         item.gens.tys.push(("T".into(), Some("'a".into()), None));
                         vs.push(VariantDef { attrs: vec![], std_attrs: vec![], name: "Carrier".into(), named: true, unit: false, fields: vec![FieldDef { attrs: vec![], std_attrs: vec![], name: Some("r".into()), ty: "&'a T".into() }], discriminant: None });
+                        generic_carrier = true;
                     }
                 }
                 if !item.gens.is_empty() {
                     labels.push("tryfrom_generic_enum".into());
                 }
+            }
+            if generic_carrier && repr.is_empty() && vs.iter().any(|v| v.discriminant.is_some()) {
+                // (same E0732 rule for the carrier variant)
+                for v in vs.iter_mut() {
+                    v.discriminant = None;
+                }
+            }
+            if repr.is_empty() {
+                labels.push("tryfrom_default_repr_isize".into());
+            } else if (has_non_unit || generic_carrier) && vs.iter().any(|v| !v.unit && !v.fields.is_empty()) && d.chance(30) {
+                // "possibly among other repr hints": `C` is only meaningful next to variants with fields
+                item.cont_attrs.push(format!("#[repr(C, {repr})]"));
+                labels.push("tryfrom_repr_among_other_hints".into());
+            } else {
+                item.cont_attrs.push(format!("#[repr({repr})]"));
             }
             item.kw = "enum";
             item.name = "E".into();
@@ -991,34 +1459,59 @@ fn build_item(d: &mut Dice) -> (Item, Vec<String>, Vec<String>) {
                 labels.push("decoration=deprecated_field".into());
             }
             ItemBody::Enum(vs) if !vs.is_empty() => {
-                let k = d.pick(vs.len());
-                vs[k].std_attrs.push("#[deprecated]".into());
-                labels.push("decoration=deprecated_variant".into());
+                let with_fields: Vec<usize> = (0..vs.len()).filter(|i| !vs[*i].fields.is_empty()).collect();
+                if !with_fields.is_empty() && d.chance(30) {
+                    // a deprecated field inside a variant
+                    let k = with_fields[d.pick(with_fields.len())];
+                    let j = d.pick(vs[k].fields.len());
+                    vs[k].fields[j].std_attrs.push("#[deprecated]".into());
+                    labels.push("decoration=deprecated_variant_field".into());
+                } else {
+                    let k = d.pick(vs.len());
+                    vs[k].std_attrs.push("#[deprecated]".into());
+                    labels.push("decoration=deprecated_variant".into());
+                }
             }
             _ => {}
         }
     }
-    let no_trait_needed = matches!(cls, "Constructor" | "Into" | "From" | "Accessors" | "TryInto" | "Debug");
+    // uninhabited field types: where the derive requires nothing of its fields, and where the uninhabited types meet the
+    // requirement themselves (`Infallible` and `!` implement Debug, Display and Error)
+    let display_only = cls == "DisplayLike" && item.dm_derives.iter().any(|x| x == "Display") && item.kw != "union";
+    let no_trait_needed = matches!(cls, "Constructor" | "Into" | "From" | "Accessors" | "TryInto" | "Debug" | "Error") || display_only;
     // (not next to `#[from(i64)]`/`forward`, which require `From<..>` of the field types)
-    let converts = labels.iter().any(|l| l == "attr=types" || l == "attr=forward")
+    let converts = labels.iter().any(|l| (l == "attr=types" && cls != "AsRef") || l == "attr=forward")
         || item.cont_attrs.iter().any(|a| a.contains("i64") || a.contains("forward"))
-        || matches!(&item.body, ItemBody::Enum(vs) if vs.iter().any(|v| v.attrs.iter().any(|a| a.contains("forward"))));
-    if no_trait_needed && !converts && d.chance(12) {
+        || matches!(&item.body, ItemBody::Enum(vs) if vs.iter().any(|v| v.attrs.iter().any(|a| a.contains("forward") || a.contains("i64"))));
+    if no_trait_needed && !converts && d.chance(15) {
+        // `Infallible`, or the never type itself (nameable on stable through a projection of `fn() -> !`)
+        let converted = match &item.body {
+            // (a field-level `#[into(..)]` makes that field the only converted one of its own impls)
+            ItemBody::Tuple(fs) | ItemBody::Named(fs) if fs.iter().any(|f| f.attrs.iter().any(|a| a.starts_with("#[into") && !a.contains("skip") && !a.contains("ignore"))) => 1,
+            ItemBody::Tuple(fs) | ItemBody::Named(fs) => fs.iter().filter(|f| !f.attrs.iter().any(|a| a.contains("skip") || a.contains("ignore"))).count(),
+            _ => 2,
+        };
+        let never = !(AVOID_NEVER_TYPE_FIELD_IN_INTO_AND_TRY_INTO && matches!(cls, "Into" | "TryInto"))
+            && !(AVOID_NEVER_TYPE_FIELD_IN_ERROR && cls == "Error")
+            && !(AVOID_NEVER_TYPE_AS_ONLY_CONVERTED_FIELD_OF_INTO && cls == "Into" && converted <= 1)
+            && d.chance(40);
+        let ty = if never { "Never" } else { "core::convert::Infallible" };
         let mut done = false;
+        let usable = |f: &FieldDef| f.ty == "U" && !f.attrs.iter().any(|a| a.contains("i64"));
         match &mut item.body {
             ItemBody::Tuple(fs) | ItemBody::Named(fs) if !fs.is_empty() => {
                 let k = d.pick(fs.len());
                 // keep generic parameters used: only replace concrete fields
-                if fs[k].ty == "U" {
-                    fs[k].ty = "core::convert::Infallible".into();
+                if usable(&fs[k]) {
+                    fs[k].ty = ty.into();
                     done = true;
                 }
             }
             ItemBody::Enum(vs) => {
                 for v in vs.iter_mut() {
                     for f in v.fields.iter_mut() {
-                        if f.ty == "U" && !done {
-                            f.ty = "core::convert::Infallible".into();
+                        if usable(f) && !done {
+                            f.ty = ty.into();
                             done = true;
                         }
                     }
@@ -1028,6 +1521,13 @@ fn build_item(d: &mut Dice) -> (Item, Vec<String>, Vec<String>) {
         }
         if done {
             labels.push("decoration=uninhabited_field".into());
+            if never {
+                extra_items.push("pub trait NeverOut { type T; }\nimpl<R> NeverOut for fn() -> R { type T = R; }\npub type Never = <fn() -> ! as NeverOut>::T;".to_string());
+                labels.push("decoration=never_type_field".into());
+            }
+            if matches!(cls, "Error" | "DisplayLike") {
+                labels.push("decoration=uninhabited_field_meets_trait".into());
+            }
         }
     }
     labels.push(item.gens.class().to_string());
@@ -1073,7 +1573,9 @@ pub fn prop() -> DiceProp {
     DiceProp {
         crate_name: "gen_c01",
         prelude: PRELUDE.to_string(),
-        crate_attrs: String::new(),
+        // the shard root brings its own, narrower allow list: naming / unused-variable lints raised inside expansions count
+        // (what the control rendering raises as well is subtracted by the driver)
+        crate_attrs: "// dmv:own-lints\n#![allow(dead_code, unused_imports)]\n".to_string(),
         nightly: false,
         check_only: true,
         ndice: 200,
@@ -1082,7 +1584,7 @@ pub fn prop() -> DiceProp {
         build,
         fixed: no_fixed,
         classify: classify_with_warnings,
-        rule: "derive (all 50, grouped in 20 classes) x item kind (unit/tuple/named struct, enum mixing unit/tuple/named variants, union) x generics (0..2 lifetimes, 0..2 type parameters with inline bounds/defaults, 0..3 const parameters incl. unused and defaulted, where-clauses, consts before types) x field types (universal helper types implementing every required trait, bare type parameters, composites where the derive requires nothing) x raw-identifier field/variant names x documented attributes x decorations (#[deprecated] field/variant, uninhabited field); oracle: rustc (`cargo check`) accepts the case and reports no warning whose primary span lies in a derive expansion; control rendering without derive_more guards generator soundness; non-trivial = has a generic parameter, an attribute, a raw identifier or a decoration; distinct by program text".into(),
+        rule: "derive (all 50, grouped in 20 classes) x item kind (unit/tuple/named struct, enum mixing unit/tuple/named variants, union) x generics (0..2 lifetimes, 0..2 type parameters with inline bounds/defaults, 0..3 const parameters incl. unused and defaulted, where-clauses, consts before types) x field types (universal helper types implementing every required trait, bare type parameters, composites where the derive requires nothing) x raw-identifier field/variant names x documented attributes (incl. field-level `#[into(..)]`, `#[as_ref(skip|forward|<types>)]` on fields and type lists naming the field's own type, variant-level `#[from(<types>)]`, `#[try_into]`/`ignore`/reference kinds on variants, TryInto variants sharing their field types, Error variants with two fields and field attributes, boxed `dyn Error` fields, TryFrom without `#[repr]` / with `#[repr(C, int)]` / with field-bearing and `{}` variants, enum-level and `rename_all` / `bound(..)` fmt attributes, struct/variant-level `#[debug(\"..\")]`, `S()` / `S {}` structs) x decorations (#[deprecated] field / variant / field of a variant, uninhabited field: `Infallible` or the never type through `<fn() -> ! as Tr>::T`, also where they meet the derive's trait requirement: Display, Error); the shard root allows only dead_code and unused_imports, so naming and unused-variable lints raised in expansions count; oracle: rustc (`cargo check`) accepts the case and reports no warning whose primary span lies in a derive expansion; control rendering without derive_more guards generator soundness; non-trivial = has a generic parameter, an attribute, a raw identifier or a decoration; distinct by program text".into(),
         assumptions: vec!["support table of what each derive documents (DESIGN Appendix A) is transcribed correctly".into()],
         floors: super::dm::DERIVES
             .iter()
@@ -1095,6 +1597,18 @@ pub fn prop() -> DiceProp {
             ("generics=mixed".into(), 0.1),
             ("decoration=deprecated_variant".into(), 0.02),
             ("decoration=deprecated_field".into(), 0.02),
+            ("decoration=deprecated_variant_field".into(), 0.004),
+            ("decoration=never_type_field".into(), 0.002),
+            ("attr=into_field_level".into(), 0.005),
+            ("tryinto_variants_with_same_types".into(), 0.008),
+            ("attr=accessor_on_variant".into(), 0.015),
+            ("asref=skip_mode".into(), 0.004),
+            ("asref=field_level_types".into(), 0.004),
+            ("error_variant_with_two_fields".into(), 0.004),
+            ("tryfrom_default_repr_isize".into(), 0.002),
+            ("tryfrom_variants_with_fields_or_empty_braces".into(), 0.008),
+            ("fmt_enum_level_wrapping".into(), 0.002),
+            ("from_variant_level_types".into(), 0.002),
         ])
             .collect(),
         shards: 0,
